@@ -75,6 +75,13 @@ def check_tuple(acc, pendulum, kw, absolute=False):
             acc.mismatch("total_seconds", "vs-timedelta", case, d.total_seconds(), n.total_seconds())
         if not (d == n and hash(d) == hash(n)):
             acc.mismatch("eq-hash", "vs-timedelta", case, [d == n, hash(d) == hash(n)], [True, True])
+        # the public helper pendulum.duration() must build the same value as the class
+        h = pendulum.duration(**kw)
+        acc.c["evaluations"] += 1
+        acc.c["transitions"] += 1
+        if type(h) is not pendulum.Duration or (obs.td_us(h), h.years, h.months, repr(h)) != (obs.td_us(d), d.years, d.months, repr(d)):
+            acc.mismatch("helper", "pendulum.duration-vs-Duration", case, [type(h).__name__, obs.td_us(h), h.years, h.months],
+                         ["Duration", obs.td_us(d), d.years, d.months])
         at = d.as_timedelta()
         acc.c["evaluations"] += 1
         if type(at) is not dt_.timedelta or obs.td_us(at) != obs.td_us(n):
